@@ -50,8 +50,14 @@ func Seed() uint64 {
 
 // Shard / Shards: the driver may run the same test binary several times in
 // parallel; every shard uses its own PRNG value.
-func Shard() int  { n, _ := strconv.Atoi(os.Getenv("VERIF_SHARD")); return n }
-func Shards() int { n, _ := strconv.Atoi(os.Getenv("VERIF_SHARDS")); if n < 1 { n = 1 }; return n }
+func Shard() int { n, _ := strconv.Atoi(os.Getenv("VERIF_SHARD")); return n }
+func Shards() int {
+	n, _ := strconv.Atoi(os.Getenv("VERIF_SHARDS"))
+	if n < 1 {
+		n = 1
+	}
+	return n
+}
 
 // Scale returns q in the quick tier and th in the thorough tier, divided over
 // the shards (at least 1).
